@@ -204,6 +204,64 @@ Section Interp.
 
   Variable rules : list (cexpr A).
 
+  (** the loops of parseSeqExpr, parseChoiceExpr and parseLitMatcher, parameterised by the
+      evaluator for sub-expressions (so that lemmas about them can be stated separately) *)
+  Definition evaluator := cexpr A -> nat -> pstate -> frame -> outcome.
+
+  Fixpoint seq_go (ev : evaluator) (cr : nat) (st0 : pstate) (es : list (cexpr A))
+           (st1 : pstate) (fr1 : frame) (acc : list V) {struct es} : outcome :=
+    match es with
+    | [] => Done true (vlist (rev acc)) st1 fr1
+    | e1 :: es' =>
+      match ev e1 cr st1 fr1 with
+      | Done true v st2 fr2 => seq_go ev cr st0 es' st2 fr2 (v :: acc)
+      | Done false _ st2 fr2 => Done false vnil (restore st0 st2) fr2
+      | other => other
+      end
+    end.
+
+  Fixpoint choice_go (ev : evaluator) (cr : nat) (fr : frame) (es : list (cexpr A))
+           (st1 : pstate) {struct es} : outcome :=
+    match es with
+    | [] => Done false vnil st1 fr
+    | e1 :: es' =>
+      match ev e1 cr st1 [] with
+      | Done true v st2 _ => Done true v st2 fr
+      | Done false _ st2 _ => choice_go ev cr fr es' st2
+      | other => other
+      end
+    end.
+
+  Fixpoint lit_go (cr : nat) (st0 : pstate) (fr : frame) (rs : list Z) (st1 : pstate) {struct rs} : outcome :=
+    match rs with
+    | [] => Done true (vbytes (takeZ (off st1 - off st0) (rest st0))) st1 fr
+    | want :: rs' =>
+      if cur_rune st1 =? want then lit_go cr st0 fr rs' (advance cr st1)
+      else Done false vnil (restore st0 st1) fr
+    end.
+
+  Definition match_class (cr : nat) (chars : list Z) (ranges : list (Z * Z)) (inverted : bool)
+             (st : pstate) (fr : frame) : outcome :=
+    let '(cur, w) := decode_rune (rest st) in
+    if cur =? rune_error then Done false vnil st fr
+    else if in_chars cur chars || in_ranges cur ranges then
+      if inverted then Done false vnil st fr
+      else Done true (vbytes (takeZ w (rest st))) (advance cr st) fr
+    else if inverted then Done true (vbytes (takeZ w (rest st))) (advance cr st) fr
+    else Done false vnil st fr.
+
+  Definition match_any (cr : nat) (st : pstate) (fr : frame) : outcome :=
+    let '(cur, w) := decode_rune (rest st) in
+    if cur =? rune_error then Done false vnil st fr
+    else Done true (vbytes (takeZ w (rest st))) (advance cr st) fr.
+
+  Definition finish_action (a : A) (cr : nat) (st st1 : pstate) (fr1 : frame) : outcome :=
+    match run_action a (rest st) (off st1 - off st) fr1 with
+    | AOk v' => Done true v' st1 fr1
+    | AErr v' err => Done true v' (mkst (rest st1) (off st1) ((off st, Some cr, KAction err) :: errs st1)) fr1
+    | APanic => Abort (mkst (rest st1) (off st1) ((off st1, Some cr, KPanic) :: errs st1))
+    end.
+
   Fixpoint eval (fuel : nat) (e : cexpr A) (cr : nat) (st : pstate) (fr : frame) {struct fuel} : outcome :=
     match fuel with
     | O => OutOfFuel
@@ -211,36 +269,11 @@ Section Interp.
       match e with
       | CAct a e1 =>
         match eval f e1 cr st fr with
-        | Done true v st1 fr1 =>
-          match run_action a (rest st) (off st1 - off st) fr1 with
-          | AOk v' => Done true v' st1 fr1
-          | AErr v' err => Done true v' (mkst (rest st1) (off st1) ((off st, Some cr, KAction err) :: errs st1)) fr1
-          | APanic => Abort (mkst (rest st1) (off st1) ((off st1, Some cr, KPanic) :: errs st1))
-          end
+        | Done true v st1 fr1 => finish_action a cr st st1 fr1
         | other => other
         end
-      | CSeq es =>
-        (fix go (es : list (cexpr A)) (st1 : pstate) (fr1 : frame) (acc : list V) {struct es} : outcome :=
-           match es with
-           | [] => Done true (vlist (rev acc)) st1 fr1
-           | e1 :: es' =>
-             match eval f e1 cr st1 fr1 with
-             | Done true v st2 fr2 => go es' st2 fr2 (v :: acc)
-             | Done false _ st2 fr2 => Done false vnil (restore st st2) fr2
-             | other => other
-             end
-           end) es st fr []
-      | CChoice es =>
-        (fix go (es : list (cexpr A)) (st1 : pstate) {struct es} : outcome :=
-           match es with
-           | [] => Done false vnil st1 fr
-           | e1 :: es' =>
-             match eval f e1 cr st1 [] with
-             | Done true v st2 _ => Done true v st2 fr
-             | Done false _ st2 _ => go es' st2
-             | other => other
-             end
-           end) es st
+      | CSeq es => seq_go (eval f) cr st es st fr []
+      | CChoice es => choice_go (eval f) cr fr es st
       | CLabel l e1 =>
         match eval f e1 cr st [] with
         | Done true v st1 _ => Done true v st1 ((l, v) :: fr)
@@ -278,26 +311,9 @@ Section Interp.
           end
         | None => Done false vnil st fr        (* cannot happen for a compiled grammar *)
         end
-      | CLit runes =>
-        (fix go (rs : list Z) (st1 : pstate) {struct rs} : outcome :=
-           match rs with
-           | [] => Done true (vbytes (takeZ (off st1 - off st) (rest st))) st1 fr
-           | want :: rs' =>
-             if cur_rune st1 =? want then go rs' (advance cr st1)
-             else Done false vnil (restore st st1) fr
-           end) runes st
-      | CClass chars ranges inverted =>
-        let '(cur, w) := decode_rune (rest st) in
-        if cur =? rune_error then Done false vnil st fr
-        else if in_chars cur chars || in_ranges cur ranges then
-          if inverted then Done false vnil st fr
-          else Done true (vbytes (takeZ w (rest st))) (advance cr st) fr
-        else if inverted then Done true (vbytes (takeZ w (rest st))) (advance cr st) fr
-        else Done false vnil st fr
-      | CAny =>
-        let '(cur, w) := decode_rune (rest st) in
-        if cur =? rune_error then Done false vnil st fr
-        else Done true (vbytes (takeZ w (rest st))) (advance cr st) fr
+      | CLit runes => lit_go cr st fr runes st
+      | CClass chars ranges inverted => match_class cr chars ranges inverted st fr
+      | CAny => match_any cr st fr
       end
     end
   (** the for-loop of parseZeroOrMoreExpr / parseOneOrMoreExpr; [acc] newest first *)
